@@ -1,9 +1,12 @@
 import GeomV.C10.GenWrites
 import GeomV.C10.Ctors
 /-! Regenerated tie: the constructors registered with `registerTrans` in /repo/proj are exactly the modelled
-ones, and no other function of the package has a constructor's signature. -/
+ones, and no other function of the package has a constructor's signature; the NAMES under which they are
+registered (PROJ.4 short names and WKT `PROJECTION` names, lower case) are mapped to the same constructor by the
+model's `ctorOfName`, which decides the write set the judge allows for an SR of that name. -/
 namespace GeomV.C10
 def modelledCtors : List Ctor := [.aea, .eqdc, .krovak, .lcc, .longlat, .merc, .tmerc, .utm]
 theorem tie_Registered :
-    Gen.registered = modelledCtors.map goFunc ∧ Gen.ctorWrites.map (·.1) = modelledCtors.map goFunc := by decide
+    Gen.registered = modelledCtors.map goFunc ∧ Gen.ctorWrites.map (·.1) = modelledCtors.map goFunc ∧
+    Gen.regNames.map (fun p => (p.1, goFunc (ctorOfName p.1))) = Gen.regNames := by decide
 end GeomV.C10
